@@ -200,7 +200,7 @@ def oracle_weak(c):
     dt = a["dt"]
     tol = []
     for t, dflt in ((c["rel"], SMALL[dt][3]), (c["abs"], 0.0)):
-        if t[0] not in ("num", "dflt"):
+        if t[0] not in ("num", "int", "dflt"):
             return None
         x = rn_fmt(Fraction(dflt if t[0] == "dflt" else t[1]), dt)
         if x == math.inf:
@@ -335,7 +335,7 @@ def evaluate(ctx, cases, tagsl):
 
 def shrink(c):
     """reduce an array case to a single scalar pair when that still shows a disagreement"""
-    if "history" in c or c.get("kind") in ("cli-tol", "long") or "mixed_precision" in c:
+    if "history" in c or c.get("kind") in ("cli-tol", "long", "long-tol") or c.get("mixed_float") or "mixed_precision" in c:
         return c
     a, b = c["a"], c["b"]
     if a["shape"] != b["shape"] or len(a["v"]) <= 1:
@@ -560,6 +560,339 @@ def mixed_precision(ctx, n):
                 ctx.violation(c, impl, orc, cls=None,
                               what=f"FuzzyEquality on a {small} array against a float64 array ({order}) differs from the documented "
                                    "formula evaluated on the promoted (binary64) values")
+# ---------------------------------------------------------------- phase 6 G1: dimensions of the quantifier sampled at one point only
+import os as _os
+P6G_OFF = _os.environ.get("FCV_P6G_OFF") == "1"      # mutation experiments only: run the check WITHOUT the phase-6-G1 batches
+
+
+def _intlike(t):
+    return t[0] == "num" and float(t[1]) == int(t[1]) and abs(t[1]) < 2 ** 53
+
+
+def gen_representation_cases(rng, n):
+    """the SAME logical operands handed over in another memory layout / container: Fortran order, strided / reversed /
+    offset views, big-endian storage, read-only arrays (what `np.frombuffer` in the file readers produces), nested Python
+    lists / tuples; tolerances handed over as Python int / numpy.float64 instead of float.  Expectation, Lean line and
+    oracle are those of the plain case (they only look at the logical values)."""
+    cases, tagsl = [], []
+    while len(cases) < n:
+        q = rng.random()
+        if q < 0.55:
+            c, t = gen_array_case(rng)
+            t = ["array"] + t
+        elif q < 0.7:
+            c, tg = gen_scalar_case(rng)
+            t = ["scalar", tg]
+        else:
+            c, t = gen_small_float_case(rng)
+        tags = list(t) + ["p6-representation"]
+        changed = False
+        for side in ("a", "b"):
+            if rng.random() < 0.75:
+                reps = [r for r in predio.REPS_ARRAY + predio.REPS_PY if predio.rep_applicable(c[side], r)]
+                if reps:
+                    r = rng.choice(reps)
+                    c[side] = dict(c[side], rep=r)
+                    tags.append(f"rep-{side}-{r}")
+                    changed = True
+        small = c["a"]["dt"] in SMALL
+        for key in ("rel", "abs"):
+            if _intlike(c[key]) and rng.random() < 0.6:
+                c[key] = ["int", int(c[key][1])]; tags.append("tol-as-python-int"); changed = True
+            elif c[key][0] == "num" and not small and rng.random() < 0.25:
+                # numpy.float64 tolerance: only next to float64 operands (next to float32 it would be a STRONG scalar and
+                # change the arithmetic, which the weak-tolerance oracle does not describe)
+                c[key] = ["np64", c[key][1]]; tags.append("tol-as-np-float64"); changed = True
+        if changed:
+            cases.append(c); tagsl.append(tags)
+    return cases, tagsl
+
+
+def mixed_float_types(ctx, n):
+    """float32 / float16 operand next to a float64 operand (either role): numpy promotes to float64 exactly, so the
+    verdict demanded is the float64 formula on the values (default rel_tol = eps of the PROMOTED type = 2^-52).  The Lean
+    model is asked with both operands declared f64 (value-preserving promotion is the assumption; DESIGN §5 item 4)."""
+    import numpy as np
+    rng = ctx.rng
+    cases, tags = [], []
+    for _ in range(n):
+        dt = rng.choice(["f32", "f32", "f16"])
+        T = predio.NP_DT[dt]
+        prec, qmin, emax, eps = SMALL[dt]
+        nrow = rng.choice([1, 2, 3, 17])
+        k = rng.choice([1, 2, 3])
+        form = rng.choice(["n", "nk", "n1"])
+        shape = {"n": [nrow], "nk": [nrow, k], "n1": [nrow, 1]}[form]
+        size = _prod(shape)
+        e = rng.choice([qmin + 2, -10, 0, 1, 10, emax - 3])
+        a = []
+        for _i in range(size):
+            m = 1.0 + rng.getrandbits(prec - 1) / 2.0 ** (prec - 1)
+            x = math.ldexp(m, max(qmin, min(emax - 1, e + rng.randint(-1, 1))))
+            a.append(float(T(-x if rng.random() < 0.5 else x)))
+        b = list(a)
+        q = rng.random()
+        if q < 0.3:
+            rel, abs_ = ["dflt"], ["num", 0.0]
+        elif q < 0.45:
+            rel, abs_ = ["dflt"], ["dflt"]
+        else:
+            rel, abs_ = ["num", rng.choice([0.0, 2.0 ** -52, eps, eps / 2, 1e-9, 1e-6, 1e-3])], ["num", rng.choice([0.0, 1e-12, 1e-6])]
+        i = rng.choice([0, size - 1, rng.randrange(size)])
+        r = 2.0 ** -52 if rel[0] == "dflt" else rel[1]
+        t = 0.0 if abs_[0] == "dflt" else abs_[1]
+        dev = rng.choice(["none", "boundary", "boundary", "small-type-ulp"])
+        if dev == "boundary":
+            b[i] = near_boundary_partner(rng, a[i], r, t)            # a float64 value: b is the float64 operand
+        elif dev == "small-type-ulp":
+            b[i] = float(np.nextafter(T(a[i]), T(np.inf)))           # one ulp of the SMALL type: far outside eps(float64)
+        A = {"dt": dt, "shape": shape, "v": a}
+        B = {"dt": "f64", "shape": list(shape), "v": b}
+        if form == "n" and rng.random() < 0.15:
+            B["shape"] = [nrow, 1]
+        tg = ["p6-mixed-float", f"mixed-{dt}/f64", "mixed-dev-" + dev, "mixed-rel-" + rel[0]]
+        if rng.random() < 0.5:
+            A, B = B, A; tg.append("mixed-small-second")
+        else:
+            tg.append("mixed-small-first")
+        cases.append({"kind": "fuzzy", "rel": rel, "abs": abs_, "a": A, "b": B, "mixed_float": True}); tags.append(tg)
+    as64 = [dict(c, a=dict(c["a"], dt="f64"), b=dict(c["b"], dt="f64")) for c in cases]
+    lines = [predio.enc_pred("fuzzy", c["rel"], c["abs"], c["a"], c["b"]) for c in as64]
+    reps = ctx.lean(lines) if ctx.driver_ok else [None] * len(lines)
+    for c, c64, tg, rep in zip(cases, as64, tags, reps):
+        impl = predio.run_impl("fuzzy", c["rel"], c["abs"], c["a"], c["b"])
+        orc = predio.oracle_fuzzy_f64(c64["rel"], c64["abs"], c64["a"], c64["b"])
+        ctx.case(("mixed", c["rel"], c["abs"], c["a"], c["b"]), nontrivial=is_nontrivial(c), tags=tg + ["verdict-" + impl],
+                 sample=None)
+        if rep is not None and rep.get("hyp") == "1":
+            if rep["model"] != impl:
+                ctx.mismatch(c, impl, rep["model"], what="float32/16 next to float64: impl vs float64 model on the promoted values")
+            if rep["spec"] != rep["model"] or rep["spec"] != orc:
+                ctx.inconsistent(c, rep["model"], f"spec={rep['spec']} oracle={orc}")
+        elif rep is not None and "hyp" not in rep:
+            ctx.inconsistent(c, str(rep), "bad-op")
+        if orc in ("T", "F") and impl != orc:
+            ctx.violation(c, impl, orc, cls=None, what="FuzzyEquality on a float32/float16 array next to a float64 array differs "
+                                                       "from the documented formula on the (exactly promoted) values")
+
+
+def replay_mixed(ctx, c):
+    c64 = dict(c, a=dict(c["a"], dt="f64"), b=dict(c["b"], dt="f64"))
+    impl = predio.run_impl("fuzzy", c["rel"], c["abs"], c["a"], c["b"])
+    orc = predio.oracle_fuzzy_f64(c64["rel"], c64["abs"], c64["a"], c64["b"])
+    print(f"replay mixed float types {c['a']['dt']}/{c['b']['dt']}: impl={impl} documented-formula(float64)={orc}")
+    return impl != orc
+
+
+def gen_wide_component_cases(rng, n):
+    """vector / tensor fields with MORE than three components ((n,4), (n,6), (n,9), (n,4,4), (n,2,3) non-square) under
+    every tolerance kind, the deviation in the first / last / a middle component of the first / last / a middle row"""
+    cases, tagsl = [], []
+    for _ in range(n):
+        nrow = rng.choice([1, 2, 3, 5, 17])
+        entry = rng.choice([[4], [6], [9], [4, 4], [2, 3], [3, 2], [1, 3]])
+        shape = [nrow] + entry
+        rs = _prod(entry)
+        size = nrow * rs
+        scale = rng.choice(EXPS[4:-3])
+        a = [rand_float(rng, [scale]) for _ in range(size)]
+        b = list(a)
+        tk = rng.choice(["num", "percomp", "percomp", "scaled", "scomp"])
+        if tk == "num":
+            rel, abs_ = ["num", rng.choice(RELS[:12])], ["num", rng.choice(ABSS)]
+        elif tk == "percomp":
+            rel = ["arr", entry, [rng.choice(RELS[:12]) for _ in range(rs)]]
+            abs_ = ["arr", entry, [rng.choice(ABSS) for _ in range(rs)]] if rng.random() < 0.6 else ["num", rng.choice(ABSS)]
+        elif tk == "scaled":
+            rel, abs_ = ["num", rng.choice(RELS[:12])], ["scaled", rng.choice([1e-12, 1e-6, 2.0 ** -20])]
+        else:
+            rel, abs_ = ["num", rng.choice(RELS[:12])], ["scomp", rng.choice([1e-12, 1e-6, 2.0 ** -20])]
+        row = rng.choice([0, nrow - 1, rng.randrange(nrow)])
+        comp = rng.choice([0, rs - 1, rng.randrange(rs)])
+        idx = row * rs + comp
+        fa = {"dt": "f64", "shape": shape, "v": a}
+        r = predio.oracle_tol_at(rel, fa, fa, shape, idx, 2.0 ** -52)
+        t = predio.oracle_tol_at(abs_, fa, fa, shape, idx, 0.0)
+        b[idx] = near_boundary_partner(rng, a[idx], r, t) if (r is not None and t is not None) else next_up(a[idx], 3)
+        A, B = {"dt": "f64", "shape": shape, "v": a}, {"dt": "f64", "shape": list(shape), "v": b}
+        if rng.random() < 0.5:
+            A, B = B, A
+        cases.append({"kind": "fuzzy", "rel": rel, "abs": abs_, "a": A, "b": B})
+        tagsl.append(["array", "p6-wide-components", "entry-" + "x".join(map(str, entry)), "tol-" + tk,
+                      "wide-dev-comp-" + ("first" if comp == 0 else "last" if comp == rs - 1 else "mid")])
+    return cases, tagsl
+
+
+def long_arrays_tolerance_kinds(ctx, sizes):
+    """long arrays (the C01 size blind spot) crossed with the OTHER tolerance kinds and shapes: per-component arrays,
+    data-computed (scaled / per-component scaled) tolerances, (n,3) and (n,2,2) fields, deviation in the FIRST row, the
+    last row, right after the largest power of two.  Expected verdict = documented formula at the single deviating entry
+    with the tolerance the documentation selects for that entry (python oracle; all other entries are identical)."""
+    rng = ctx.rng
+    for n in sizes:
+        for entry in ([3], [2, 2]):
+            rs = _prod(entry)
+            size = n * rs
+            pat = [rand_float(rng, [0]) for _ in range(7)]
+            a = (pat * (size // 7 + 1))[:size]
+            # one dominant entry so that a data-computed tolerance has its maximum in a known far-away row
+            big_row = rng.choice([0, n - 1, n // 3])
+            a[big_row * rs + rng.randrange(rs)] = rng.choice([-1.0, 1.0]) * 64.0
+            shape = [n] + entry
+            A = {"dt": "f64", "shape": shape, "v": a}
+            xa = predio.np_array(A)
+            p2 = 1 << ((n - 1).bit_length() - 1)
+            for tk in ("percomp", "scaled", "scomp"):
+                if tk == "percomp":
+                    rel = ["arr", entry, [rng.choice([1e-9, 1e-6, 2.0 ** -20]) for _ in range(rs)]]
+                    abs_ = ["arr", entry, [rng.choice([0.0, 1e-12, 1e-9]) for _ in range(rs)]]
+                elif tk == "scaled":
+                    rel, abs_ = ["num", rng.choice([0.0, 1e-9])], ["scaled", rng.choice([1e-9, 2.0 ** -20])]
+                else:
+                    rel, abs_ = ["num", rng.choice([0.0, 1e-9])], ["scomp", rng.choice([1e-9, 2.0 ** -20])]
+                for row in (0, n - 1, p2):
+                    comp = rng.randrange(rs)
+                    idx = row * rs + comp
+                    if a[idx] in (64.0, -64.0):
+                        idx = row * rs + (comp + 1) % rs
+                    r = _tol_np(rel, xa, a[idx], rs, idx, 2.0 ** -52)
+                    t = _tol_np(abs_, xa, a[idx], rs, idx, 0.0)
+                    for dev in (near_boundary_partner(rng, a[idx], r, t), a[idx] * (1 + 64 * max(r, 1e-9)) + 64 * t + 1e-9):
+                        big_i = a.index(64.0) if 64.0 in a else a.index(-64.0)
+                        c = {"kind": "long-tol", "n": n, "entry": entry, "pattern": pat, "big_index": big_i, "big_value": a[big_i],
+                             "dev_index": idx, "dev_row": row, "dev_value": dev, "rel": rel, "abs": abs_}
+                        impl, orc = _eval_long_tol(c, pre=(A, xa))
+                        where = "first" if row == 0 else "last" if row == n - 1 else "after-pow2"
+                        ctx.case(("long-tol", n, tuple(entry), idx, dev, str(rel), str(abs_)), nontrivial=True,
+                                 tags=["p6-long-tolkinds", f"long-n={n}", "long-tol-" + tk, "long-dev-" + where,
+                                       "long-entry-" + "x".join(map(str, entry)), "verdict-" + impl], sample=None)
+                        if orc in ("T", "F") and impl != orc:
+                            ctx.violation(c, impl, orc, cls=None,
+                                          what=f"FuzzyEquality ({tk} tolerances) differs from the documented formula: field of {n} rows "
+                                               f"x {entry}, single deviating entry in row {row}")
+
+
+def _long_tol_arrays(c):
+    n, entry, pat = c["n"], c["entry"], c["pattern"]
+    size = n * _prod(entry)
+    a = (pat * (size // len(pat) + 1))[:size]
+    a[c["big_index"]] = c["big_value"]
+    b = list(a)
+    b[c["dev_index"]] = c["dev_value"]
+    shape = [n] + list(entry)
+    return {"dt": "f64", "shape": shape, "v": a}, {"dt": "f64", "shape": shape, "v": b}
+
+
+def _eval_long_tol(c, pre=None):
+    """(impl verdict, demanded verdict).  `pre` = (A, ndarray of A) already built by the batch (speed only; the replay
+    rebuilds everything from the literal description)"""
+    import numpy as np
+    if pre is None:
+        A, _B = _long_tol_arrays(c)
+        xa = predio.np_array(A)
+    else:
+        A, xa = pre
+    i = c["dev_index"]
+    xb = xa.copy()
+    xb.reshape(-1)[i] = c["dev_value"]
+    p = predio.make_pred("fuzzy", c["rel"], c["abs"])
+    try:
+        with np.errstate(all="ignore"):
+            impl = "T" if bool(p(xa, xb)) else "F"
+    except Exception as e:  # noqa: BLE001
+        impl = "E" if type(e).__name__ == "PredicateError" else "X:" + type(e).__name__
+    # tolerance the documentation selects for entry i: only the deviating entry of b differs from a, so every maximum
+    # over "either field" is the maximum over a and the one changed value
+    rs = _prod(c["entry"])
+    x, y = A["v"][i], c["dev_value"]
+    r, t = _tol_np(c["rel"], xa, y, rs, i, 2.0 ** -52), _tol_np(c["abs"], xa, y, rs, i, 0.0)
+    return impl, ("T" if predio.float_formula(x, y, r, t) else "F")
+
+
+def _tol_np(t, xa, y, rs, i, dflt):
+    """tolerance the documentation selects for flat entry i of (a, a-with-entry-i-replaced-by-y); maxima by numpy (speed)"""
+    import numpy as np
+    if t[0] == "num":
+        return float(t[1])
+    if t[0] == "arr":
+        return float(t[2][i % rs])
+    if t[0] == "scaled":
+        return rn64(Fraction(t[1]) * Fraction(max(float(np.max(np.abs(xa))), abs(y))))
+    if t[0] == "scomp":
+        return rn64(Fraction(max(float(np.max(np.abs(xa.reshape(-1, rs)[:, i % rs]))), abs(y))) * Fraction(t[1]))
+    return dflt
+
+
+def reused_array_tolerances(ctx, n):
+    """per-component tolerances given as ndarrays: ONE ndarray object shared by two predicate objects (rel_tol of one,
+    abs_tol of the other is its own array), each evaluated on several fields, interleaved; afterwards every verdict must
+    still be the documented formula with the ORIGINAL tolerance values (the harness keeps them as literals).  Also the
+    operand ndarrays themselves are reused: (a,b) then (b,a) then (a,b) again on the same objects."""
+    import numpy as np
+    rng = ctx.rng
+    from fieldcompare.predicates import FuzzyEquality
+    for _ in range(n):
+        k = rng.choice([2, 3])
+        entry = [k] if rng.random() < 0.7 else [k, k]
+        rs = _prod(entry)
+        relv = [rng.choice(RELS[1:12]) for _ in range(rs)]
+        absv = [rng.choice(ABSS[1:]) for _ in range(rs)]
+        rel, abs_ = ["arr", entry, relv], ["arr", entry, absv]
+        rel_obj = np.array(relv, dtype=np.float64).reshape(entry)
+        abs_obj = np.array(absv, dtype=np.float64).reshape(entry)
+        p1 = FuzzyEquality(rel_tol=rel_obj, abs_tol=abs_obj)
+        p2 = FuzzyEquality(rel_tol=rel_obj, abs_tol=abs_obj)          # shares BOTH tolerance objects with p1
+        hist = []
+        for use in range(rng.randint(2, 4)):
+            nrow = rng.choice([1, 2, 5])
+            shape = [nrow] + entry
+            size = nrow * rs
+            scale = rng.choice(EXPS[4:-3])
+            a = [rand_float(rng, [scale]) for _ in range(size)]
+            b = list(a)
+            idx = rng.randrange(size)
+            b[idx] = near_boundary_partner(rng, a[idx], relv[idx % rs], absv[idx % rs])
+            A, B = {"dt": "f64", "shape": shape, "v": a}, {"dt": "f64", "shape": shape, "v": b}
+            xa, xb = predio.np_array(A), predio.np_array(B)
+            orc = predio.oracle_fuzzy_f64(rel, abs_, A, B)
+            for who, (p, x, y) in (("p1-ab", (p1, xa, xb)), ("p2-ba", (p2, xb, xa)), ("p1-ab-again", (p1, xa, xb))):
+                try:
+                    with np.errstate(all="ignore"):
+                        impl = "T" if bool(p(x, y)) else "F"
+                except Exception as e:  # noqa: BLE001
+                    impl = "X:" + type(e).__name__
+                hist.append({"a": A, "b": B, "by": who})
+                ctx.case(("reuse-arr", use, who, str(rel), str(abs_), A, B), nontrivial=is_nontrivial({"a": A, "b": B}),
+                         tags=["p6-reused-array-tol", f"use-{use}", "reuse-" + who, "verdict-" + impl], sample=None)
+                if orc in ("T", "F") and impl != orc:
+                    ctx.violation({"kind": "fuzzy", "rel": rel, "abs": abs_, "a": A, "b": B, "shared_array_tolerances": True,
+                                   "history": list(hist)}, impl, orc, cls=None,
+                                  what="verdict differs from the documented formula with the per-component tolerances AS GIVEN, after "
+                                       "the tolerance / operand ndarray objects had been used by earlier evaluations (%s, field %d)" % (who, use))
+                    break
+
+
+def replay_shared_arrays(ctx, c):
+    import numpy as np
+    from fieldcompare.predicates import FuzzyEquality
+    rel_obj = np.array(c["rel"][2], dtype=np.float64).reshape(c["rel"][1])
+    abs_obj = np.array(c["abs"][2], dtype=np.float64).reshape(c["abs"][1])
+    p = {"p1": FuzzyEquality(rel_tol=rel_obj, abs_tol=abs_obj), "p2": FuzzyEquality(rel_tol=rel_obj, abs_tol=abs_obj)}
+    objs, impl = {}, None
+    for h in c["history"]:
+        key = repr((h["a"], h["b"]))
+        if key not in objs:
+            objs[key] = (predio.np_array(h["a"]), predio.np_array(h["b"]))
+        xa, xb = objs[key]
+        x, y = (xb, xa) if h["by"].startswith("p2-ba") else (xa, xb)
+        try:
+            with np.errstate(all="ignore"):
+                impl = "T" if bool(p[h["by"][:2]](x, y)) else "F"
+        except Exception as e:  # noqa: BLE001
+            impl = "X:" + type(e).__name__
+    orc = predio.oracle_fuzzy_f64(c["rel"], c["abs"], c["a"], c["b"])
+    print(f"replay (shared tolerance / operand ndarrays, {len(c['history'])} evaluations): impl={impl} documented-formula={orc}")
+    return impl != orc
 
 
 def run(ctx):
@@ -592,12 +925,19 @@ def run(ctx):
     for _ in range(ctx.scale(1500, 60000)):
         c, t = gen_small_float_case(rng)
         cases.append(c); tagsl.append(t)
+    if not P6G_OFF:
+        for gc, gt in (gen_representation_cases(rng, ctx.scale(700, 20000)), gen_wide_component_cases(rng, ctx.scale(150, 6000))):
+            cases += gc; tagsl += gt
     CH = 5000
     for i in range(0, len(cases), CH):
         evaluate(ctx, cases[i:i + CH], tagsl[i:i + CH])
     long_arrays(ctx, LONG_QUICK if ctx.tier == 'quick' else LONG_THOROUGH)
-    mixed_precision(ctx, ctx.scale(400, 20000))
+    mixed_precision(ctx, ctx.scale(120, 3000))
     reused_dynamic_tolerances(ctx, ctx.scale(150, 6000))
+    if not P6G_OFF:
+        mixed_float_types(ctx, ctx.scale(400, 15000))
+        long_arrays_tolerance_kinds(ctx, [1500, 70001] if ctx.tier == 'quick' else [1001, 1500, 4097, 70001, 300007])
+        reused_array_tolerances(ctx, ctx.scale(60, 3000))
     cli_route(ctx, n_vtu_pairs=ctx.scale(40, 169), rounds=ctx.scale(1, 10))
     ctx.spec_viol = [dict(v, case=shrink(v["case"])) for v in ctx.spec_viol[:50]]
 
@@ -613,6 +953,23 @@ def replay(ctx, payload):
     c = payload["case"]
     if c.get("kind") == "cli-tol":
         if replay_cli(ctx, c):
+            print(f"VIOLATION property=C01 replay={payload.get('_path', '<replay>')}")
+            return 1
+        return 0
+    if c.get("kind") == "long-tol":
+        impl, orc = _eval_long_tol(c)
+        print(f"replay long array n={c['n']} x {c['entry']} deviating row {c['dev_row']}: impl={impl} formula={orc}")
+        if impl != orc:
+            print(f"VIOLATION property=C01 replay={payload.get('_path', '<replay>')}")
+            return 1
+        return 0
+    if c.get("mixed_float"):
+        if replay_mixed(ctx, c):
+            print(f"VIOLATION property=C01 replay={payload.get('_path', '<replay>')}")
+            return 1
+        return 0
+    if c.get("shared_array_tolerances"):
+        if replay_shared_arrays(ctx, c):
             print(f"VIOLATION property=C01 replay={payload.get('_path', '<replay>')}")
             return 1
         return 0
